@@ -261,6 +261,21 @@ def routing_history(rng, prof):
                 g.ops.append(op("publish", k=g.k(c), t=tb, m=g.msg(), qos=0, alias=al))
                 g.ops.append(op("publish", k=g.k(c), t=tb, m=g.msg(), qos=0, alias=al, notopic=True))
                 g.__dict__.setdefault("bound", {}).setdefault(g.k(c), {})[al] = tb
+        elif a == "alias_resume":
+            # an unacknowledged QoS 1 delivery that BOUND an outbound alias is resumed by a connection with a smaller Topic Alias Maximum
+            pubs = [x for x in clients if g.k(x)]
+            if len(pubs) >= 2:
+                c = rng.choice(pubs)
+                pubr = rng.choice([x for x in pubs if x != c])
+                f = rng.choice([["a"], ["a", "b"]])
+                g.connect(c, v=5, clean=True, sei=300, tam=2)
+                g.ops.append(op("subscribe", k=g.k(c), pid=g.pid(g.k(c)), filters=[dict(f=f, qos=1, nl=False, rap=False, rh=0)]))
+                g.subs.setdefault(c, []).append(f)
+                g.ops.append(op("publish", k=g.k(pubr), t=f, m=g.msg(), qos=1, pid=g.pid(g.k(pubr)) + 100))
+                g.ops.append(op("netdrop", k=g.k(c)))
+                del g.conn[c]
+                g.connect(c, v=5, clean=False, sei=300, tam=rng.choice([0, 0, 1]))
+                g.ops.append(op("ackall", k=g.k(c)))
         elif a == "version_switch":
             # a persistent session with an unacknowledged QoS 1 delivery is resumed by a connection of the other protocol version
             pubs = [x for x in clients if g.k(x)]
